@@ -92,7 +92,7 @@ CALLER = dict(replace=['carquet_arena_alloc_aligned'], level='proof', bound=None
 
 JOBS += (
     split('alloc_aligned', 'h_alloc_aligned', AA)
-    + split('alloc_aligned_nofail', 'h_alloc_aligned', AA, cbmc_flags=[], defines=['CQV_NOFAIL=1'])
+    + split('alloc_aligned_nofail', 'h_alloc_aligned', AA, cbmc_flags=['--no-malloc-may-fail'], defines=['CQV_NOFAIL=1'])
     + split('alloc', 'h_alloc', AA + ['carquet_arena_alloc'])
     + [
         arena('calloc', 'h_calloc', ['carquet_arena_calloc', 'carquet_arena_alloc'], timeout=300,
@@ -113,3 +113,23 @@ JOBS += (
               bound='arena block list of length 1..3 at the save, at most one block appended before the restore'),
     ]
 )
+
+# ---- status: ok on the unchanged tree AND seen failing (VIOLATION) on a deliberately broken copy ----
+VALIDATED = set('c19_buffer_' + x for x in (
+    'reserve init init_capacity init_wrap init_copy destroy clear resize shrink_to_fit append append_byte append_fill '
+    'append_u16_le append_u32_le append_u64_le append_f32_le append_f64_le advance detach swap '
+    'reader_init reader_has reader_read_nz reader_skip reader_read_byte reader_read_u16_le reader_read_u32_le '
+    'reader_read_u64_le reader_read_f32_le reader_read_f64_le').split()) | set('c19_arena_' + x for x in (
+    'alloc_aligned_n1 alloc_aligned_n2 alloc_n1 memdup strndup strdup init destroy reset save_restore').split())
+NOTES = {
+    'c19_arena_calloc': 'UNDECIDED: SAT times out (300 s) on total / count == size even for 16-bit factors; z3/cvc5 abort on '
+                        'the is_fresh-instrumented program. Not a finding.',
+    'c19_arena_alloc_aligned_nofail_n1': 'ok (30 s) on the unchanged tree; not yet breakage-validated',
+}
+for _j in JOBS:
+    if _j['name'] in VALIDATED:
+        _j['wip'] = False
+    if _j['name'] in NOTES:
+        _j['note'] = NOTES[_j['name']]
+    if _j['name'].startswith('c19_arena_') and _j['name'][-3:] in ('_n2', '_n3') and _j['name'] not in VALIDATED:
+        _j.setdefault('note', 'not run yet (same harness as the _n1 job; est. 60 s for n2, > 100 s for n3)')
